@@ -38,6 +38,8 @@ type frame struct {
 	ifaceMods    *ModSet
 	selfT        Term
 	dynSelf      Term
+	snaps        map[string]Value
+	csHit        map[*CallSite]bool
 }
 
 type retInfo struct {
@@ -494,6 +496,7 @@ func (fr *frame) block(b *ssa.BasicBlock, st *State, li *loopInfo) {
 			fr.alloc(x, st)
 		case *ssa.Store:
 			fr.store(st, x.Addr, fr.val(x.Val), x.Pos())
+			fr.maybeSnapshot(x)
 		case *ssa.UnOp:
 			fr.vals[x] = fr.unop(x, st)
 		case *ssa.BinOp:
@@ -716,6 +719,9 @@ func (fr *frame) enterLoop(l *loop, st *State) *State {
 			fx.note("ASSUMED without proof at loop %d of %s: %s", l.ord, fr.name, c.Src)
 			continue
 		}
+		if c.Kind == "derived" {
+			continue
+		}
 		if facetLevel[c.Facet] == fr.level {
 			n0 := len(fx.enc.Obls)
 			fr.obligeSplit("inv-entry", fmt.Sprintf("loop%d.%s", l.ord, clauseName(c)), t, l.header.Instrs[0].Pos(), c.Facet, c.Tags)
@@ -758,7 +764,12 @@ func (fr *frame) enterLoop(l *loop, st *State) *State {
 			continue
 		}
 		if t, err := ev2.EvalBool(c.E); err == nil {
+			if c.Kind == "derived" && facetLevel[c.Facet] == fr.level {
+				fr.obligeSplit("inv-derived", fmt.Sprintf("loop%d.%s", l.ord, clauseName(c)), t, l.header.Instrs[0].Pos(), c.Facet, c.Tags)
+			}
 			fr.assume(t)
+		} else if c.Kind == "derived" {
+			fr.specError(c, err)
 		}
 	}
 	for _, L := range outer {
@@ -793,7 +804,7 @@ func (fr *frame) backEdge(l *loop, cond Term, st *State) {
 		if c.Kind == "candidate" && fr.fx.candFail[CandKey{c, l.ord}] {
 			continue
 		}
-		if c.Kind == "assume" {
+		if c.Kind == "assume" || c.Kind == "derived" {
 			continue
 		}
 		t, err := ev.EvalBool(c.E)
@@ -931,6 +942,13 @@ func (fr *frame) env(cur, old *State, l *loop) *Env {
 	}
 	for k, v := range fr.params {
 		ev.vars[k] = v
+	}
+	if fr.contract != nil && fr.prefix == "" {
+		for _, sn := range fr.contract.Snapshots {
+			if _, clash := ev.vars[sn.Name]; !clash {
+				ev.vars[sn.Name] = fr.snapValue(sn)
+			}
+		}
 	}
 	// positional aliases (used by interface contracts): recv, arg0, arg1, ...
 	if fr.fn != nil {
@@ -1082,4 +1100,64 @@ func (E *Engine) ghostKeysOfCall(c *ssa.CallCommon) []string {
 		}
 	}
 	return out
+}
+
+// snapValue returns the ghost constant of a snapshot (declared on first use).
+func (fr *frame) snapValue(sn Snapshot) Value {
+	if fr.snaps == nil {
+		fr.snaps = map[string]Value{}
+	}
+	if v, ok := fr.snaps[sn.Name]; ok {
+		return v
+	}
+	v := IntV(fr.fx.enc.Decl("snap."+sn.Name, "Int"), tInt)
+	fr.snaps[sn.Name] = v
+	return v
+}
+
+// maybeSnapshot ties a snapshot constant to the value stored by the assignment it names.
+func (fr *frame) maybeSnapshot(x *ssa.Store) {
+	ct := fr.contract
+	if ct == nil || len(ct.Snapshots) == 0 || fr.prefix != "" {
+		return
+	}
+	a, ok := x.Addr.(*ssa.Alloc)
+	if !ok {
+		return
+	}
+	for _, sn := range ct.Snapshots {
+		if sn.Var != a.Comment {
+			continue
+		}
+		var stores []*ssa.Store
+		for _, b := range fr.fn.Blocks {
+			for _, ins := range b.Instrs {
+				if s, ok := ins.(*ssa.Store); ok {
+					if sa, ok := s.Addr.(*ssa.Alloc); ok && sa.Comment == sn.Var {
+						stores = append(stores, s)
+					}
+				}
+			}
+		}
+		sort.SliceStable(stores, func(i, j int) bool { return stores[i].Pos() < stores[j].Pos() })
+		if sn.K > len(stores) {
+			fr.unsupported("snapshot %s: variable %s has only %d assignments", sn.Name, sn.Var, len(stores))
+			continue
+		}
+		if stores[sn.K-1] != x {
+			continue
+		}
+		li := fr.fx.E.loops(fr.fn)
+		for _, l := range li.loops {
+			if l.body[x.Block()] {
+				fr.unsupported("snapshot %s: assignment %d of %s is inside a loop", sn.Name, sn.K, sn.Var)
+			}
+		}
+		v := fr.val(x.Val)
+		if v.Kind != KInt {
+			fr.unsupported("snapshot %s: only scalar variables", sn.Name)
+			continue
+		}
+		fr.assume(Eq(fr.snapValue(sn).T, v.T))
+	}
 }
